@@ -172,6 +172,18 @@ pub fn run(tier: &str, seed: u64, only: Option<&str>) -> Run {
         entry("performance_attrs.performance()", guarded(|| finish(reference.clone().performance())));
         entry("Performance::from(&map)", guarded(|| finish(Performance::from(&map))));
         entry("map.performance()", guarded(|| finish(map.performance())));
+        // "the same settings supplied again" through Performance's OWN setters (each is forwarded by the any-mode
+        // enum to the mode's builder) — map path and attributes path (seed C04-performance-od-taiko-arm-forwards-hp
+        // mis-forwarded one arm, invisible as long as settings only ever arrived through `.difficulty(d)`)
+        let via_setters = |p: Performance<'_>| -> PerformanceAttributes {
+            let mut p = settings.apply_via_setters(p, mode);
+            if let Some(n) = passed {
+                p = p.passed_objects(n);
+            }
+            spec.apply(p).calculate()
+        };
+        entry("Performance::new(&map) + Performance setters", guarded(|| via_setters(Performance::new(&map))));
+        entry("Performance::new(difficulty attrs) + Performance setters", guarded(|| via_setters(Performance::new(dattrs.clone()))));
         // mode-specific builders
         entry(
             "mode-specific new(&map)/try_new/From",
